@@ -161,8 +161,8 @@ impl Property for C15 {
     }
     fn runs(&self, tier: Tier) -> u64 {
         match tier {
-            Tier::Quick => 3_000,
-            Tier::Thorough => 150_000,
+            Tier::Quick => 30_000,
+            Tier::Thorough => 500_000,
         }
     }
     fn rule(&self) -> &'static str {
